@@ -214,3 +214,9 @@ def certain_raise(t):
                 and type(st[2][1]) is int and not -len(st[1][1]) <= st[2][1] < len(st[1][1]):
             return f"IndexError: {st[1][1]!r}[{st[2][1]}]"
     return None
+
+
+def uncond(e) -> bool:
+    """The effect happens on every path through the function: no guard that all ways to it share, and a path condition that is plainly true
+    (`e.guards` keeps only the literals common to every disjunct: under `if a or b:` it is empty although the effect is conditional)."""
+    return not e.guards and any(len(c) == 0 for c in (e.dnf or ((),)))
